@@ -543,9 +543,8 @@ func TestVerifC19(t *testing.T) {
 
 	nFwd := 0
 	minimised := map[string]int{}
-	n := run.N(6000, 120000)
-	run.Cases("legacy-proxy", n, func(i int, rng *verifkit.Rand) {
-		c := c19Gen(rng, env.remotes, env.clusters)
+	panicNoted := false
+	runCase := func(c c19Case, i int, rng *verifkit.Rand) {
 		run.Input(c, false)
 		if i < 2 {
 			run.Sample(c)
@@ -570,6 +569,10 @@ func TestVerifC19(t *testing.T) {
 		if o.ClientErr != "" {
 			// e.g. the handler panicked and net/http dropped the connection: nothing was forwarded
 			run.Count("legacy_controller_transport_errors", 1)
+			if !panicNoted {
+				panicNoted = true
+				run.Note("incidental (not a C19 violation: nothing is forwarded): the controller drops the connection without a response for some requests, e.g. " + o.ClientErr + " — all observed ones carry a two-segment token \"v2/xxx\" (validateAPItoken indexes sp[2] of strings.Split(token, \"/\") and panics)")
+			}
 			for _, p := range c.Places {
 				if f := strings.Split(p.Tok.Str, "/"); p.Tok.Class == "opaque" && len(f) == 2 && f[0] == "v2" {
 					run.Count("legacy_controller_transport_errors_with_two_segment_v2_token", 1)
@@ -617,6 +620,47 @@ func TestVerifC19(t *testing.T) {
 			b, _ := json.Marshal(mc)
 			run.Violation(mf.Sig+suffix, fmt.Sprintf("%s; remote=%q; minimal witness: %s", mf.Detail, c.Remote, b), mc)
 		}
+	}
+
+	n := run.N(6000, 120000)
+	run.Cases("legacy-proxy", n, func(i int, rng *verifkit.Rand) {
+		runCase(c19Gen(rng, env.remotes, env.clusters), i, rng)
+	})
+
+	// ---- exhaustively enumerated sub-space: every token kind in every
+	// placement, alone and next to an ordinary token in every other placement,
+	// with every content-type spelling when a form body is involved
+	type combo struct {
+		kind, where, other, ctype string
+	}
+	var combos []combo
+	places := []string{"auth-oauth2", "auth-bearer", "auth-basic", "query", "form", "cookie"}
+	for _, kind := range c19kit.Kinds {
+		for _, w := range places {
+			for _, o := range append([]string{""}, places...) {
+				if o == w || (strings.HasPrefix(o, "auth-") && strings.HasPrefix(w, "auth-")) {
+					continue
+				}
+				if w == "form" || o == "form" {
+					for _, ct := range []string{"exact", "param", "case"} {
+						combos = append(combos, combo{kind, w, o, ct})
+					}
+				} else {
+					combos = append(combos, combo{kind, w, o, ""})
+				}
+			}
+		}
+	}
+	run.Count("max_legacy_matrix_combinations", len(combos))
+	run.Cases("legacy-matrix", len(combos), func(i int, rng *verifkit.Rand) {
+		cb := combos[i]
+		c := c19Case{Remote: env.remotes[i%len(env.remotes)], Kind: "workflows", Route: "path-uuid", Method: "GET", CType: cb.ctype}
+		c.Places = []c19Place{{c19kit.MakeTok(rng, cb.kind, c.Remote, c19LocalID), cb.where}}
+		if cb.other != "" {
+			c.Places = append(c.Places, c19Place{c19kit.MakeTok(rng, "v2-ordinary", c.Remote, c19LocalID), cb.other})
+		}
+		run.Count("legacy_matrix_cases", 1)
+		runCase(c19Normalise(c), i+3, rng)
 	})
 	c19DB.Lock()
 	run.Count("legacy_db_queries", c19DB.queries)
